@@ -179,6 +179,11 @@ def _astype(x, dtype):
     return x.astype(dtype)
 
 
+@astype.register(numbers.Number)
+def _astype_scalar(x, dtype):
+    return np.dtype(dtype).type(x)
+
+
 @FinitaryOp.make
 def cat(parts, axis=0):
     raise NotImplementedError
